@@ -10,7 +10,7 @@ THEOREMS = ['KM.C08.C08_terminator_count', 'KM.C08.C08_terminator_not_doubled', 
 FINGERPRINTS = ['exporter.Exporter.export_string', 'exporter.Exporter.is_signature_cancelled', 'exporter.Exporter.export_token', 'importer.Importer',
                 'document.Document', 'document.SignatureNodes']
 RULE = ('core stream: generated **kern-only documents whose signatures precede the first measure (the same kinds in every spine), whose splits are '
-        're-joined before the next barline and are not nested (quick 30 / thorough 300) x EVERY measure range: the excerpt must start with the header '
+        're-joined before the next barline and are not nested (quick 30 / thorough 300) x EVERY measure range 1 <= a <= b <= M and every range starting at the beginning (a = 0 or omitted, b = 0..M): the excerpt must start with the header '
         'line, have a cell count per line consistent with its spine operators, terminate every spine, re-import without errors, and give every note the '
         'same clef / key signature / time signature as the full score (signatures tracked on the texts themselves); frontier stream: mid-score signature '
         'changes, excerpts starting inside a split, nested splits, non-kern spines (quick 30 / thorough 300 documents) - failures there are attributed to '
@@ -111,6 +111,9 @@ def explore(ctx, depth):
         for case in cases:
             M = len(case.doc.measure_start_tree_stages) if case.doc is not None else 0
             case.pairs = [(a, b) for a in range(1, M + 1) for b in range(a, M + 1)]
+            # excerpts that start at the beginning of the score (from_measure 0 or omitted), including the one that ends at the barline
+            # opening measure 1 (to_measure = 0)
+            case.pairs += [(0, b) for b in range(0, M + 1)] + [(None, b) for b in range(0, M + 1)]
             kern_only = all(h == '**kern' for h in case.adoc['headers'])
             case.types = None if kern_only else ['**kern']
             exps.append([{'cats': docrun.ALLC, 'enc': 'kern', 'from': a, 'to': b, 'types': case.types} for a, b in case.pairs] +
@@ -128,7 +131,7 @@ def explore(ctx, depth):
                 model = mr['exports'][k] if 'exports' in mr else None
                 inp = {'text': case.text, 'from_measure': a, 'to_measure': b, 'spine_types': case.types}
                 tie_ok = got == model
-                ctx.check({**inp, 'clause': 'tie'}, got, model, None, nontrivial=a > 1, what='excerpt differs from the model')
+                ctx.check({**inp, 'clause': 'tie'}, got, model, None, nontrivial=(a or 0) > 1, what='excerpt differs from the model')
                 klass = classify(case.adoc, a)
 
                 def bad(clause, what, impl=None, expected=None):
